@@ -1337,7 +1337,17 @@ impl Lab {
                             Some(v) if v.iter().any(|(kk, _)| *kk == i) => {
                                 v.iter().rev().find(|(kk, _)| *kk == i).and_then(|(_, o)| w.oid_ix(o))
                             }
-                            _ => arefs.get(&(i, SIGREFS.to_string())).and_then(|o| w.oid_ix(o)),
+                            _ => {
+                                // what the serving side lists last for this remote's rad/sigrefs
+                                let mut listed: Vec<git2::Oid> = arefs.get(&(i, SIGREFS.to_string())).into_iter().cloned().collect();
+                                if !listed.is_empty() {
+                                    listed.extend(w.a_dups.iter().filter(|(kk, _)| *kk == i).map(|(_, o)| *o));
+                                }
+                                if w.a_rev {
+                                    listed.reverse();
+                                }
+                                listed.last().and_then(|o| w.oid_ix(o))
+                            }
                         };
                         let bad = match offered {
                             None => true,
@@ -1391,6 +1401,7 @@ impl Lab {
                     let mut tips: Vec<git2::Oid> = vec![];
                     tips.extend(lrefs.get(&(*d, SIGREFS.to_string())));
                     tips.extend(arefs.get(&(*d, SIGREFS.to_string())));
+                    tips.extend(w.a_dups.iter().filter(|(k, _)| k == d).map(|(_, o)| *o));
                     tips.extend(refsat.iter().flatten().filter(|(k, _)| k == d).map(|(_, o)| *o));
                     let ok = tips.iter().any(|o| {
                         w.oid_ix(o).and_then(|i| w.blobs.get(&(*d, i))).and_then(|b| b.as_ref()).map(|b| b.valid()).unwrap_or(false)
